@@ -3850,7 +3850,9 @@ def unused_zip_args(source: str) -> str:
             yield node.iter, ast.Call(func=func, args=iters, keywords=[]), transaction
 
 
-@processing.fix
+# One link of a chain of assignments (a = f(); b = a; c = b; return c) goes per iteration, and this
+# rule is not run again and again like most others
+@processing.fix(max_iter=1000)
 def simplify_assign_immediate_return(source: str) -> str:
     find = """
     {{name}} = {{value}}
